@@ -108,5 +108,20 @@ func listScripts() [][][]string {
 			}
 		}
 	}
+	// regression scripts: the inputs on which LRANGE / LTRIM / LREM / LMOVE used to fail (former witnesses of
+	// lrange-index-panic, lrange-negative-end-miscomputed, ltrim-index-panic, lrem-skips-adjacent-matches,
+	// lmove-empty-source-panic), appended last so that the ids of the aliasing probes do not move
+	out = append(out,
+		[][]string{{"lpush", "k1", "a", "b"}, {"lrange", "k1", "-5", "1"}, {"lrange", "k1", "0", "2"}, {"lrange", "k1", "1", "1"},
+			{"lrange", "k1", "2", "2"}, {"lrange", "k1", "0", "-2"}, {"lrange", "k1", "-1", "-7"}, {"lrange", "k1", "-100", "100"},
+			{"lrange", "k1", "-9223372036854775808", "9223372036854775807"}, {"rpush", "k1", "c"}, {"lrange", "k1", "0", "3"}, {"lrange", "k1", "-2", "-2"}},
+		[][]string{{"lpush", "k1", "a", "b"}, {"ltrim", "k1", "-5", "1"}, {"lrange", "k1", "0", "-1"}, {"ltrim", "k1", "-9223372036854775808", "0"},
+			{"lrange", "k1", "0", "-1"}, {"ltrim", "k1", "-5", "-5"}, {"llen", "k1"}, {"exists", "k1"}},
+		[][]string{{"rpush", "k1", "a", "a", "a", "y"}, {"lrem", "k1", "0", "a"}, {"lrange", "k1", "0", "-1"}},
+		[][]string{{"rpush", "k1", "a", "a", "a", "y", "a"}, {"lrem", "k1", "2", "a"}, {"lrange", "k1", "0", "-1"}, {"lrem", "k1", "5", "a"},
+			{"lrange", "k1", "0", "-1"}, {"lrem", "k1", "0", "y"}, {"llen", "k1"}},
+		[][]string{{"rpush", "k1", "a", "b", "c"}, {"rpush", "k3", "x"}, {"lpop", "k1", "10"}, {"lmove", "k1", "k3", "left", "right"},
+			{"lmove", "k1", "k3", "right", "left"}, {"lmove", "k1", "k1", "left", "right"}, {"lrange", "k3", "0", "-1"}, {"llen", "k1"}},
+	)
 	return out
 }
